@@ -119,3 +119,15 @@ check('C04',
       'in subprocesses under PYTHONHASHSEED 0-3 and VERIF_SEED (thorough: 0-31) and the digests must agree.',
       'reference mc/models/xpgrammar.py; chains where * or + directly follows a sequence type are skipped (occurrence-indicator ambiguity rule)',
       'DESIGN.md section 3 C04')
+check('C11',
+      'bounded-exhaustive enumeration of date/time/duration values and operations against an integer day-number model of the proleptic Gregorian timeline',
+      'Years on a dense grid around year 0 (-405..405; thorough -820..820), around 9999/10000, the int32 extremes and 400-year multiples x first/last '
+      'day of every month + Feb 28/29 + Mar 1 x four times of day (incl. 24:00:00 and fractional seconds) x five timezone settings x XSD 1.0 / 1.1 '
+      'year numbering: string form and components, string round trip, todelta() equals the model offset, fromdelta(todelta()) is the identity, '
+      'd + dur - dur for 12 dayTimeDurations, clamped yearMonthDuration addition for 11 month counts; xs:date on every date part. All pairs of a '
+      '296-value sub-grid: six comparisons equal instant order, d2 - d1 equals elapsed seconds, d1 + (d2 - d1) = d2. Through the XPath evaluator: '
+      'component functions, adjust-dateTime/date/time-to-timezone to four timezones, implicit-timezone comparison, xs:date and xs:time +/- durations, '
+      'date/time subtraction and comparison over all pairs, gregorian year types. months2days() on 36 years x 12 months x 87 deltas and the '
+      'order of all pairs of ~1500 xs:duration values against the four-reference-dateTime definition. Calendar validity of 230 lexical dates.',
+      'reference mc/models/timeline.py (validated against datetime.toordinal for every day of years 1..9999); an operation leaving the supported year range may raise OverflowError/FODT0001',
+      'DESIGN.md section 3 C11')
